@@ -137,6 +137,13 @@ def k5_parameter_byte(chk, F, A, tag):
                 if len(hi) == 1 and len(lo) == 1:
                     hi_src, lo_src = str(hi[0][2]), str(lo[0])
                     ok = "lms" in hi_src and "lmots" not in hi_src.replace("get_lms_parameter", "") and "lmots" in lo_src
+                    # both nibbles are the numeric *type codes* (hash-sigs' parameter-set codes), not the height / Winternitz values
+                    def is_code(x):
+                        return any((y[0] == "field" and y[2] == "type_id") or (y[0] == "call" and y[1].endswith("get_type_id")) for y in expr.walk(x)) and \
+                            not any(y[0] == "field" and y[2] in ("winternitz", "tree_height") for y in expr.walk(x))
+                    codes = is_code(hi[0][2]) and is_code(lo[0])
+                    chk.ob("K5.nibbles-are-type-codes", enc.key + tag, codes,
+                           "%s packs something other than the LMS / LM-OTS type codes into the parameter byte: %s" % (enc.path, detail), where=enc.loc())
         chk.ob("K5.encoder-packs-lms-high-lmots-low", enc.key + tag, ok,
                "%s does not store (LMS type << 4) + LM-OTS type: %s" % (enc.path, detail), where=enc.loc())
         # initial fill of the parameter bytes = default of Self = 0xff everywhere
@@ -161,6 +168,20 @@ def k5_parameter_byte(chk, F, A, tag):
                 andm = True
             if rv["op"] in ("Eq", "Ne") and cb == 0xff:
                 endm = True
+    # ... and each nibble goes through the type-code decoder of its algorithm enum (C12-T1 pins those decoders to the RFC codes)
+    fed = {}
+    for b, t in dec.calls():
+        cp = core.callee_path(t) or ""
+        if dec.blocks[b]["cleanup"] or not cp.endswith("::from") or "From<u32>" not in cp or not t["args"]:
+            continue
+        e = ex.of_operand(t["args"][0])
+        kind = "hi" if any(y[0] == "bin" and y[1] == "Shr" and y[3] == ("const", 4) for y in expr.walk(e)) else \
+            ("lo" if any(y[0] == "bin" and y[1] == "BitAnd" and y[3] == ("const", 15) for y in expr.walk(e)) else None)
+        for nm in ("LmsAlgorithm", "LmotsAlgorithm"):
+            if ("<%s as" % A.type_path(nm)) in cp:
+                fed[nm] = kind
+    chk.ob("K5.nibbles-decoded-as-type-codes", dec.key + tag, fed == {"LmsAlgorithm": "hi", "LmotsAlgorithm": "lo"},
+           "%s does not hand the high nibble to the LMS type-code decoder and the low nibble to the LM-OTS type-code decoder (found %s)" % (dec.path, fed), where=dec.loc())
     chk.ob("K5.decoder-inverts-the-packing", dec.key + tag, shr and andm and endm,
            "%s does not decode with `>> 4`, `& 0x0f` and the 0xff end marker (found: shr %s, mask %s, end marker %s)" % (dec.path, shr, andm, endm), where=dec.loc())
 
